@@ -3,6 +3,7 @@ package checks
 // C05 — execution is total and pure, and its errors are classified.
 
 import (
+	"context"
 	"encoding/json"
 	"fmt"
 	"math"
@@ -16,9 +17,10 @@ import (
 )
 
 type totalFacts struct {
-	classes  map[string]bool
-	d9       bool
-	mismatch bool // some entry point reported an error class or a null predicate
+	classes   map[string]bool
+	d9        bool
+	mismatch  bool // some entry point reported an error class or a null predicate
+	cancelled bool // some run had its context become done during the execution
 }
 
 var c05Ev *Ev
@@ -91,7 +93,7 @@ func provenance(v any, known map[uintptr]int, at string) *Violation {
 	return violf("%s: value of undocumented type %T returned", at, v)
 }
 
-func checkTotalFacts(c ExecCase) (v *Violation, f totalFacts) {
+func checkTotalFacts(c ExecCase) (v *Violation, f totalFacts) { //nolint:gocyclo
 	f.classes = map[string]bool{}
 	pr, err := prepare(c)
 	if err != nil {
@@ -172,6 +174,37 @@ func checkTotalFacts(c ExecCase) (v *Violation, f totalFacts) {
 			}
 		}
 	}
+	// the same classification when the context becomes done in the middle of the
+	// execution: whatever the fault point, the error wraps exec.ErrExecution (or is NULL)
+	for _, k := range []int{0, 1, 2, 3, 4, 6, 9, 14, 22} {
+		for i, name := range entryNames {
+			for _, silent := range []bool{false, true} {
+				cc := newCountCtx(pr.ctx, k, context.Canceled)
+				cc.tickMode = k%2 == 0
+				o := runEntry(i, cc, pr, silent)
+				at := fmt.Sprintf("%s(%q, %s, silent=%v) with the context cancelled at its use number %d", name, c.Path, c.Doc, silent, k)
+				if o.Panic != "" {
+					return violf("%s panicked: %s", at, o.Panic), f
+				}
+				switch o.Class {
+				case EOK, ESupp, EHard, ECtx:
+				case ENull:
+					if i < 2 {
+						return violf("%s returned exec.NULL", at), f
+					}
+				case EInvalid:
+					if !(isD9(o.Err) && ev.quirk("datetime_vs_nondatetime_invalid")) {
+						return violf("%s returned ErrInvalid: %v", at, o.Err), f
+					}
+				default:
+					return violf("%s returned an error that wraps neither exec.ErrExecution nor is exec.NULL: %v", at, o.Err), f
+				}
+				if cc.firedAt >= 0 || cc.doneTick >= 0 {
+					f.cancelled = true
+				}
+			}
+		}
+	}
 	if !deepEqualJSON(docCopy, pr.doc) {
 		return violf("the queried value was modified by %q: %s -> %s", c.Path, Render(docCopy, false), Render(pr.doc, false)), f
 	}
@@ -221,6 +254,9 @@ func TestC05(t *testing.T) {
 		ev.Eval(c.Key(), f.mismatch)
 		for k := range f.classes {
 			ev.Label("class:" + k)
+		}
+		if f.cancelled {
+			ev.Label("context_done_mid_execution")
 		}
 		if f.d9 {
 			ev.KFCase("D9")
